@@ -385,6 +385,34 @@ class Summaries:
         # abstract target type (e.g. BUS::Word: From<u8>): a pure term of its argument
         return [(st, Term("From::from<%s>" % T.tstr(Tt), [v], Tt))]
 
+    def s_int_ops(self, ctx, st):
+        """core::ops::bit::BitXor::bitxor | core::ops::bit::BitAnd::bitand | core::ops::bit::BitOr::bitor | core::ops::bit::Not::not | core::ops::bit::Shl::shl | core::ops::bit::Shr::shr | core::ops::arith::Add::add | core::ops::arith::Sub::sub | core::ops::arith::Mul::mul"""
+        # operator traits on primitive integers / bool (a helper generic over the word type: `value ^ old`, `!W::from(0)`)
+        # are the built-in operators; the arithmetic ones panic on overflow like the operator does in this build
+        if ctx.r["kind"] == "body":
+            return None
+        ex = ctx.ex
+        vals = [self.deref_arg(ctx, st, a) for a in ctx.args]
+        if not all(isinstance(v, (IntV, BoolV)) for v in vals):
+            return None
+        nm = ctx.callee["name"]
+        if nm == "not":
+            return [(st, ex.unop(st, ctx.fr, "Not", vals[0]))]
+        if len(vals) != 2:
+            return None
+        op = {"bitxor": "BitXor", "bitand": "BitAnd", "bitor": "BitOr", "shl": "Shl", "shr": "Shr"}.get(nm)
+        if op is not None:
+            if op in ("Shl", "Shr") and not all(isinstance(v, IntV) for v in vals):
+                return None
+            return [(st, ex.binop(st, ctx.fr, op, vals[0], vals[1], ctx.span))]
+        if not all(isinstance(v, IntV) for v in vals):
+            return None
+        r = ex.binop(st, ctx.fr, {"add": "AddWithOverflow", "sub": "SubWithOverflow", "mul": "MulWithOverflow"}[nm], vals[0], vals[1], ctx.span)
+        if not ex.obligation(st, ctx.fr, b_not(r.fields[1].p), {"kind": "assert", "what": "overflow", "op": nm, "span": ctx.span,
+                                                               "a": repr(vals[0]), "b": repr(vals[1]), "fn": ctx.fr.fn_id, "stack": ctx.fr.stack}):
+            return []
+        return [(st, r.fields[0])]
+
     def s_try_from(self, ctx, st):
         """core::convert::TryFrom::try_from | core::convert::TryInto::try_into"""
         ex = ctx.ex
@@ -816,6 +844,32 @@ class Summaries:
         lo, hi, px = r.fields[0].poly(), r.fields[1].poly(), x.poly()
         c = cmp_le(lo, px, st.facts) * (cmp_le(px, hi, st.facts) if r.name.endswith("RangeInclusive") else cmp_lt(px, hi, st.facts))
         return [(st, BoolV(st.facts.simplify(c)))]
+
+    def s_slice_contains(self, ctx, st):
+        """slice::contains"""
+        # membership of a plain value (integer, or a field-less enum variant) in a slice of known elements
+        sl = self.deref_arg(ctx, st, ctx.args[0])
+        x = self.deref_arg(ctx, st, ctx.args[1])
+        if not (isinstance(sl, Agg) and sl.kind == "array"):
+            return None
+        if all(isinstance(e, IntV) for e in sl.fields) and isinstance(x, IntV):
+            acc = ZERO
+            for e in sl.fields:
+                c = cmp_eq(e.poly(), x.poly(), st.facts)
+                acc = acc + c - acc * c
+            return [(st, BoolV(st.facts.simplify(acc)))]
+        if all(isinstance(e, Agg) and e.kind == "adt" and not e.fields and e.variant is not None for e in sl.fields) and sl.fields:
+            name = sl.fields[0].name
+            xt = x.ty.get("def") if isinstance(x, SymV) and x.ty is not None else getattr(x, "name", None)
+            if xt != name or name not in ctx.ex.F.adts or any(v["fields"] for v in ctx.ex.F.adts[name]["variants"]):
+                return None
+            have = set(e.variant for e in sl.fields)
+            acc = ZERO
+            for c, var, _fs in self.split_enum(ctx.ex, st, x):
+                if var in have:
+                    acc = acc + c
+            return [(st, BoolV(st.facts.simplify(acc)))]
+        return None
 
     def s_range_new(self, ctx, st):
         """core::ops::range::RangeInclusive::new"""
